@@ -210,10 +210,16 @@ func (g *Generator) Generate(dict *dictionary.Dictionary) ([]byte, error) {
 	}
 
 	vendors := make([]*dictionary.Vendor, 0, len(dict.Vendors))
+	vendorIdents := map[string]*dictionary.Vendor{}
 	for _, vendor := range dict.Vendors {
 		if vendor.GetLengthOctets() != 1 || vendor.GetTypeOctets() != 1 {
 			return nil, errors.New("dictionarygen: cannot generate code for " + vendor.Name)
 		}
+		vendorIdent := identifier(vendor.Name)
+		if existing, ok := vendorIdents[vendorIdent]; ok {
+			return nil, fmt.Errorf("dictionarygen: conflicting identifier between vendors %s (%d) and %s (%d)", existing.Name, existing.Number, vendor.Name, vendor.Number)
+		}
+		vendorIdents[vendorIdent] = vendor
 		baseImports["errors"] = struct{}{}
 
 		for _, attr := range vendor.Attributes {
